@@ -477,6 +477,25 @@ func (w *World) revertProbe(n *Node, e *blockEntry) {
 		return
 	}
 	w.stats.Inc("probe.revert-probe")
+	if l := w.ledgers[parent.id]; l != nil && l.Forest != nil {
+		var touched []uint64
+		for _, d := range ru.SiacoinElementDiffs() {
+			touched = append(touched, d.SiacoinElement.StateElement.LeafIndex)
+		}
+		for _, d := range ru.SiafundElementDiffs() {
+			touched = append(touched, d.SiafundElement.StateElement.LeafIndex)
+		}
+		for _, d := range ru.FileContractElementDiffs() {
+			touched = append(touched, d.FileContractElement.StateElement.LeafIndex)
+		}
+		for _, d := range ru.V2FileContractElementDiffs() {
+			touched = append(touched, d.V2FileContractElement.StateElement.LeafIndex)
+		}
+		w.checkUpdateNodes("revert (probe)", n, e, l.Forest, ru.ForEachTreeNode, touched...)
+		if w.ownViolation() {
+			return
+		}
+	}
 	got := noProofDiffs(ru.SiacoinElementDiffs(), ru.SiafundElementDiffs(), ru.FileContractElementDiffs(), ru.V2FileContractElementDiffs())
 	names := []string{"siacoin", "siafund", "contract", "v2contract"}
 	for k := 0; k < 4; k++ {
